@@ -315,6 +315,10 @@ func QualifierParser(prefix string) pars.Parser {
 		}
 
 		value := string(result.Token)
+		if GetQualifierType(name) == ToggleQualifier {
+			// a toggle has no value: the token is the line end that follows its name
+			value = ""
+		}
 		result.SetValue(QualifierIO{name, value})
 		return nil
 	}
